@@ -40,7 +40,7 @@ manifest = {
         "kind_free_text": "mechanical extraction of real functions from /repo + woven contracts (units/*.vu) + Verus 0.2026.09.13/Z3; replay binary linking the real crate for witnesses",
     }],
     "checks": checks,
-    "notes": "exit 0 = all obligations carrying the property discharged; exit 1 = VIOLATION (a carried obligation failed to verify); exit 2 = undecided (lost anchor / unsupported construct / resource limit / vacuity guard), never an alarm. Genuine defects repaired in /repo are listed in known_findings.json under `fixed`.",
+    "notes": "exit 0 = all obligations carrying the property discharged; exit 1 = VIOLATION (a carried obligation failed to verify, or a stored input — thorough tier: also one of the generated inputs of the bounded exploration — violates the property's statement when run against the real crate; the replay file says which); exit 2 = undecided (an obligation of the property lies in a function whose weaving lost its anchor or whose text Verus rejects, a resource limit, a failed proof step without a failing input, the vacuity guard), never an alarm. Genuine defects repaired in /repo are listed in known_findings.json under `fixed`.",
     "not_applicable": [{"property_id": k, "reason": v} for k, v in sorted(na.items()) if k not in claimed],
 }
 with open(os.path.join(VERIF, "MANIFEST.json"), "w") as f:
